@@ -283,6 +283,43 @@ def pick(fn, what):
     raise Untranslatable("unknown selector %s" % what)
 
 
+def follow_helper(fn, cls_body, what):
+    """`nth:<t>:<k>` / `assign:<t>` when <t> is no longer assigned in the function itself but received from a method of the same
+    class, `..., t, ... = self.<helper>(a, b)`, which computes it under the same name and returns it at the same position: the
+    selector is then applied inside the helper.  Fail-closed: exactly one such call, positional arguments that are plain names
+    equal to the helper's parameter names, tuple returns of the right arity only, at least one of them returning the name itself."""
+    kind, _, target = what.partition(":")
+    if kind not in ("nth", "assign"):
+        return None
+    k = None
+    if kind == "nth":
+        target, k = target.rsplit(":", 1)
+        k = int(k)
+    calls = [m for m in ast.walk(fn) if isinstance(m, ast.Assign) and len(m.targets) == 1 and isinstance(m.targets[0], ast.Tuple)
+             and any(src(t) == target for t in m.targets[0].elts) and isinstance(m.value, ast.Call)
+             and isinstance(m.value.func, ast.Attribute) and isinstance(m.value.func.value, ast.Name) and m.value.func.value.id == "self"]
+    if len(calls) != 1:
+        return None
+    call = calls[0].value
+    names = [src(t) for t in calls[0].targets[0].elts]
+    if names.count(target) != 1 or call.keywords or not all(isinstance(a, ast.Name) for a in call.args):
+        return None
+    helper = [n for n in cls_body if isinstance(n, ast.FunctionDef) and n.name == call.func.attr]
+    if len(helper) != 1:
+        return None
+    helper = helper[0]
+    a = helper.args
+    if a.vararg or a.kwarg or a.kwonlyargs or a.posonlyargs or [x.arg for x in a.args] != ["self"] + [x.id for x in call.args]:
+        return None
+    rets = [n for n in ast.walk(helper) if isinstance(n, ast.Return)]
+    if not rets or not all(isinstance(r.value, ast.Tuple) and len(r.value.elts) == len(names) for r in rets):
+        return None
+    pos = names.index(target)
+    if not any(isinstance(r.value.elts[pos], ast.Name) and r.value.elts[pos].id == target for r in rets):
+        return None
+    return helper, pick(helper, what)
+
+
 def flow_expr(fn, var, stop=None, init=None):
     """value of `var` after the leading top-level statements of fn: `v = e`, `v op= e` and guarded `if test: v = e` (no else) are
     folded in order; None if `var` is assigned in any other way"""
@@ -593,8 +630,14 @@ def translate(repo):
             if path not in trees:
                 trees[path] = ast.parse(open(path).read())
             fn = find_func(trees[path], e["cls"], e["func"])
-            node = pick(fn, e["what"])
             cls_body = next((c.body for c in trees[path].body if isinstance(c, ast.ClassDef) and c.name == e["cls"]), [])
+            try:
+                node = pick(fn, e["what"])
+            except Untranslatable:
+                followed = follow_helper(fn, cls_body, e["what"])     # the statement may have moved into a method of the class
+                if followed is None:
+                    raise
+                fn, node = followed
             txt, ty = Tr(e, fn, cls_body, picked=node).tr(node)
             if ty != e["ret"]:
                 if ty == "Z" and e["ret"] == "Q":
